@@ -164,7 +164,7 @@ def check(pid, tier, seed):
             l, rr = x["log"][0]
             for sec, on in (("", x["shp"][1] in "bnh"), ("S", x["shp"][1] in "bs")):
                 if on:
-                    want.add((sec, "U%d%d" % (l, rr), ("1",)))
+                    want.add((sec, "U" + p_layers.idd(l, rr), ("1",)))
         if any(tr[0] == "" for tr in want) or len({tr[0] for tr in want}) >= 2 or x["bad"]:
             nn += 1
         good = True
